@@ -59,6 +59,15 @@ def _cases(ctx, nl):
         spec = dict(corp[li]) if li < len(corp) else lensgen.gen_spec(rng, allow=['plane', 'standard'], decenter=False, mirrors=(li % 4 == 0))
         if max(f[0] for f in spec['fields']) == 0:
             spec['fields'].append([rng.uniform(1, 6), 0.0, 0.0, 0.0])
+        if li >= len(corp) and li % 6 == 5:
+            # small aperture AND small field: a tiny but regular Lagrange invariant (contributions far below 1)
+            spec['aperture'] = ['EPD', 10 ** rng.uniform(-2.5, -1.0)]
+            spec['field_type'] = 'angle'
+            spec['fields'] = [[0.0, 0.0, 0.0, 0.0], [10 ** rng.uniform(-6.5, -4.0), 0.0, 0.0, 0.0]]
+            hist['small_invariant'] = hist.get('small_invariant', 0) + 1
+        elif li >= len(corp) and li % 6 == 2 and not math.isinf(spec['object_thickness']):
+            lensgen.immerse(spec, rng)       # object / image space not in air
+            hist['immersed'] = hist.get('immersed', 0) + 1
         edits = []
         try:
             o = lensgen.build(spec)
